@@ -12,7 +12,7 @@ encoder.  The library runs `service_type_name` (C19's model `Name.serviceTypeNam
   accepted name is at most 63 bytes — the `NamePartTooLongException` site is closed for the instance name;
 * `C15_nonstrict_name_refuted`: in non-strict mode (`strict=False`; also what `ServiceInfo.__init__`, `ServiceBrowser.__init__` and
   `AsyncServiceInfo` use) it is not: `_` + 70 × `a` + `._tcp.local.` is accepted and has a 71-byte label;
-* `C15_server_not_validated`: the validation does not look at `server` (nor at TXT, port, weight, priority, addresses), and looks at
+* `C15_server_not_validated_before_D28`: before the D28 repair the validation does not look at `server` (nor at TXT, port, weight, priority, addresses), and looks at
   `type_` only through `type_.endswith(service_type)`: any server name registers;
 * `C15_unencodable_server_refuted`: a 64-byte server label falsifies `SvcSafe`.
 
@@ -104,27 +104,46 @@ theorem C15_registered_name_encodable (s : Svc) (h : checkName s true = .ok ()) 
     rw [hlen]
     exact C15_strict_name_labels_short _ t ht piece hp
 
-/-- **the server name is not validated** (nor is anything but the instance name and the type's suffix): the name check and the
-registry's verdict are the same for every server name -/
-theorem C15_server_not_validated (lower : String → String) {υ : Type} (d : CS υ) (s : Svc) (srv : String) (strict : Bool) :
+/-- **before the D28 repair the server name is not validated** (nor is anything but the instance name and the type's suffix): on a
+tree whose `async_register_service` does not encode the records first (translated leaf `register_encodes_first = false`), the name
+check and the registry's verdict are the same for every server name.  (With the repair the dry-run encode rejects it: the leaf is
+`true` and this theorem's hypothesis fails.) -/
+theorem C15_server_not_validated_before_D28 (hleaf : Gen.SurviveApi.register_encodes_first = false)
+    (lower : String → String) {υ : Type} (d : CS υ) (s : Svc) (srv : String) (strict : Bool) :
     checkName { s with server := srv } strict = checkName s strict ∧
     ((registerE lower d { s with server := srv } strict).toOption.isSome = (registerE lower d s strict).toOption.isSome) := by
   refine ⟨rfl, ?_⟩
   unfold registerE
   have : checkName { s with server := srv } strict = checkName s strict := rfl
-  rw [this]
+  rw [this, hleaf]
   cases checkName s strict with
   | error e => rfl
   | ok u =>
     dsimp only
-    simp only [Registry.add, Svc.key]
+    simp only [encodesFirst, Registry.add, Svc.key]
     by_cases hc : (sget lower (lower s.name) d.reg.services).isSome = true <;> simp [hc, Except.toOption]
+
+/-- **with the D28 repair an unencodable service is refused before the registry holds it**: when the tree encodes first
+(`register_encodes_first = true`) and the encoder raises on the service's records, `async_register_service` raises that exception to
+the caller and the composite state is untouched (the `register` block is a no-op) -/
+theorem C15_unencodable_registration_refused_after_D28 (hleaf : Gen.SurviveApi.register_encodes_first = true)
+    (lower : String → String) {υ : Type} (d : CS υ) (s : Svc) (strict : Bool) (e : PyExc)
+    (henc : Wire.Encode.packets (multicastMsg ⟨(broadcastRecs s).map wireOfRec, []⟩) = .error e) :
+    (∃ e', registerE lower d s strict = .error e') := by
+  unfold registerE
+  cases checkName s strict with
+  | error e' => exact ⟨e', rfl⟩
+  | ok u =>
+    dsimp only
+    rw [hleaf]
+    simp only [encodesFirst, henc, if_true]
+    exact ⟨e, rfl⟩
 
 /-- a 64-byte label (`h` × 64) in front of `local` -/
 def longHost : Wire.WName := [List.replicate 64 104, [108, 111, 99, 97, 108]]
 
 /-- **an unencodable server name falsifies `SvcSafe`** (by the text-layer identity `textGlue`): the SRV record's target has a 64-byte label.
-Together with `C15_server_not_validated`: the API accepts services that violate the data invariant of C15's survival theorems. -/
+Together with `C15_server_not_validated_before_D28`: the API accepts services that violate the data invariant of C15's survival theorems. -/
 theorem C15_unencodable_server_refuted (lower : String → String) (ettl : Nat) (s : Svc)
     (hs : s.server = textOfName longHost) : ¬ SvcSafe lower ettl s := by
   intro h
